@@ -1,4 +1,5 @@
 import WindVerif.Model.Buffers
+import WindVerif.Model.RingSeq
 import WindVerif.Drv.Common
 namespace WindVerif.Drv
 open WindVerif.Buffers
@@ -30,6 +31,20 @@ def pbufStep (b : PBuf) (ws : List String) : PBuf × String :=
   | ["out"] => (b, "list " ++ showNats b.out)
   | _ => (b, "bad-op")
 
+def seqErr : SeqErr → String
+  | .indexError => "IndexError"
+  | .valueError => "ValueError"
+
+/-- an optional integer argument: `-` = not given -/
+def parseOptInt (w : String) : Option (Option Int) :=
+  if w = "-" then some none else (w.toInt?).map some
+
+def ringIndexAnswer (r : Ring) (v : String) (start stop : String) : Ring × String :=
+  match v.toNat?, parseOptInt start, parseOptInt stop with
+  | some v, some a, some b =>
+    (match ringIndex r v a b with | .ok i => (r, s!"ret {i}") | .error e => (r, s!"err {seqErr e}"))
+  | _, _, _ => (r, "bad-op")
+
 def ringStep (r : Ring) (ws : List String) : Ring × String :=
   match ws with
   | ["new", c] => match c.toNat? with
@@ -44,6 +59,20 @@ def ringStep (r : Ring) (ws : List String) : Ring × String :=
     | none => (r, "bad-op")
   | ["len"] => (r, s!"ret {r.size}")
   | ["list"] => (r, "list " ++ showNats r.toList)
+  -- the `Sequence` mixins
+  | ["index", v] => ringIndexAnswer r v "-" "-"
+  | ["index", v, a] => ringIndexAnswer r v a "-"
+  | ["index", v, a, b] => ringIndexAnswer r v a b
+  | ["count", v] => match v.toNat? with
+    | some v => (r, s!"ret {ringCount r v}")
+    | none => (r, "bad-op")
+  | ["has", v] => match v.toNat? with
+    | some v => (r, s!"ret {if ringContains r v then 1 else 0}")
+    | none => (r, "bad-op")
+  | ["rev"] => (match ringReversed r with
+    | .ok l => (r, "list " ++ showNats l)
+    | .error e => (r, s!"err {seqErr e}"))
+  | ["iter"] => (r, "list " ++ showNats (ringIter r))
   | _ => (r, "bad-op")
 
 def bufMachine : Machine := { σ := Buf, init := Buf.empty, step := bufStep }
